@@ -42,7 +42,7 @@ def main():
     paths = [p for p in paths if only in p]
     n1 = n2 = 0
     record = {}
-    with ThreadPoolExecutor(max_workers=8) as ex:
+    with ThreadPoolExecutor(max_workers=int(os.environ.get('VCHECK_JOBS', '8'))) as ex:
         for path, out in ex.map(one, paths):
             tag = "/".join(path.split("/")[-3:-1])
             if out is not None and "--kept" in sys.argv:
@@ -66,7 +66,9 @@ def main():
         for sid, e in record.items():
             own = sid.split("-")[0]
             slim[sid] = {pid: rc for pid, rc in e.items() if pid == own or rc != 0}
-        json.dump(slim, open(os.path.join(HERE, "selftest", "benign", "expect.json"), "w"), indent=1, sort_keys=True)
+        # with the churn gate switched off (VCHECK_CHURN=0) the result is what the rules say on their own: kept apart in raw.json
+        name = "raw.json" if os.environ.get("VCHECK_CHURN") == "0" else "expect.json"
+        json.dump(slim, open(os.path.join(HERE, "selftest", "benign", name), "w"), indent=1, sort_keys=True)
 
 
 if __name__ == "__main__":
